@@ -676,7 +676,7 @@ func (h *harness) checkOp(cs Case, verbose bool) opResult {
 	large := len(op.Query) > 1<<18
 	for _, w := range h.worlds {
 		fl := w.flags
-		if cs.Flags != nil && (fl.Feat != cs.Flags.Feat || fl.Cost != cs.Flags.Cost) {
+		if cs.Flags != nil && (fl.Feat != cs.Flags.Feat || fl.Cost != cs.Flags.Cost || fl.NoExec != cs.Flags.NoExec) {
 			continue // restricted to one (features, cost) family: both its plain and its preprocessed API
 		}
 		// the operation run without any transport
@@ -973,6 +973,11 @@ func (h *harness) runCase(cs Case, verbose bool) *failure {
 			}
 		}
 		return r.fail
+	case "late-clone":
+		f := h.checkLateClone(cs, verbose)
+		key, _ := json.Marshal(cs.Hist)
+		h.run.Case("late-clone:"+string(key), true)
+		return f
 	case "hist":
 		f := h.checkHist(cs, verbose)
 		key, _ := json.Marshal(cs.Hist)
@@ -1150,6 +1155,7 @@ func main() {
 	}()
 	run.SetRule("A0: raw query strings (escapes valid and invalid, separators, repeated names) against net/url; A1: HTTP requests spelled from abstract classes (method × 4 URL parameters × media type × body class; exhaustive over the classes, spellings from the PRNG); " +
 		"A2/A4: start/subscribe frames (kind × didInit × payload class); A3: the A1 envelopes through API.ServeGraphQL of rotating configurations; " +
+		"L: the plain API of a family serves 1-3 requests, then the preprocessed API is built from the same definition objects and serves them too; " +
 		"H: histories of 2-4 requests on freshly built API instances (same query text, features / variables / operation name / transport varied between steps); " +
 		"B: operations (query, operationName, variables) generated type-directed from an argument-echoing schema, sent over the 5 carriers × 8 API configurations. " +
 		"distinct = distinct concrete case; non-trivial = (op) at least one resolver ran and the operation carries variables or an operation name, " +
@@ -1233,6 +1239,15 @@ func main() {
 			run.Sample(cs)
 		}
 	}
+	for i, op := range fragmentOps() {
+		cs := Case{Kind: "late-clone", Seed: uint64(i), Hist: []Step{{Op: op, Feats: featChoices[i%len(featChoices)], Carrier: carriersFor(op)[i%len(carriersFor(op))]}}}
+		h.report(cs, h.runCase(cs, false))
+	}
+	for i := 0; i < run.Scale(60, 3000); i++ {
+		r := run.Rand.Fork()
+		cs := Case{Kind: "late-clone", Seed: r.Uint64(), Hist: genLateClone(r)}
+		h.report(cs, h.runCase(cs, false))
+	}
 	run.Note("phase H done at %.1fs", run.Elapsed().Seconds())
 	// A1 (+A3 on a rotating configuration): exhaustive over abstract classes
 	mapClasses := []string{"absent", "empty", "null", "obj", "bad"}
@@ -1315,7 +1330,7 @@ func main() {
 		}
 	}
 	run.Note("large documents done at %.1fs", run.Elapsed().Seconds())
-	for i := 0; i < run.Scale(450, 16000); i++ {
+	for i := 0; i < run.Scale(450, 12000); i++ {
 		r := run.Rand.Fork()
 		spec, op := genOp(r)
 		cs := Case{Kind: "op", Seed: r.Uint64(), Op: &op, Spec: &spec, Feats: hx.Pick(r, featChoices)}
